@@ -269,17 +269,20 @@ theorem chemOutUnit_eq_fold {rules : List (ChemRule ℝ)} {rulesQ : List ChemRul
   rw [← foldl_ite_eq_foldl_filter]
   exact chemOutUnit_fold_aux h u u
 
-/-- the FULL statement: every block of the chain is the documented one -/
-def ChemChainDocumented : Prop :=
-  ∀ q ∈ chemRulesQ, ∃ s ∈ Std.chem, s.pat = q.pat ∧ q.alt = s.alt ∧ q.hasAlt = (s.alt != "") ∧ q.out = s.out ∧
+/-- one block is the documented one: pattern, alternative spelling, new unit, M-dependence and offset as in `Std.chem`,
+    factor exactly or to the accuracy of the rounded constant -/
+def RuleDocumented (q : ChemRuleQ) : Prop :=
+  ∃ s ∈ Std.chem, s.pat = q.pat ∧ q.alt = s.alt ∧ q.hasAlt = (s.alt != "") ∧ q.out = s.out ∧
     q.usesM = s.usesM ∧ q.b = s.b ∧ Std.ratAbs (q.a - s.a) ≤ s.tol * s.a
+
+instance (q : ChemRuleQ) : Decidable (RuleDocumented q) := by unfold RuleDocumented; infer_instance
+
+/-- the FULL statement: every block of the chain is the documented one -/
+def ChemChainDocumented : Prop := ∀ q ∈ chemRulesQ, RuleDocumented q
 
 instance : Decidable ChemChainDocumented := by unfold ChemChainDocumented; infer_instance
 
-/-- the recorded defect: the block `(L/mol/deg F)` multiplies by 1e-3·(5/9) = 1/1800 -/
-def LmolFDefect : Prop := ∃ q ∈ chemRulesQ, q.pat = "(L/mol/deg F)" ∧ q.a = 1 / 1800
-
-instance : Decidable LmolFDefect := by unfold LmolFDefect; infer_instance
-
+/-- the block `(L/mol/deg F)` as it stood in the original source: `data * 1.e-3 * (5./9.)` -/
+def oldLmolFRule : ChemRuleQ := ⟨"(L/mol/deg F)", false, "", 1 / 1800, 0, false, "(m^3/mol/deg C)"⟩
 
 end TamocV.Lemmas.C15
